@@ -41,7 +41,14 @@ def check(ck):
     loop = br.one(loops, "element loop (for idx, f in enumerate(...))")
     props = br.calls("propagate_dependencies")
     runs = br.calls("memento_run_local")
-    no_caller = [n.id for n in br.cfg.nodes if n.kind == "test" and A.norm(n.ast) in ("calling_frame", "calling_frame is not None")]
+    def _is_frame_test(fa_, n_):
+        t_ = fa_.xnorm(n_.ast, n_.id)
+        return t_.endswith(("get_calling_frame()", "get_calling_frame() is not None")) and t_.startswith("CallStack.get()")
+
+    def _is_frame_memento(fa_, e_, at_):
+        return isinstance(e_, ast.Attribute) and e_.attr == "memento" and fa_.xnorm(e_.value, at_) == "CallStack.get().get_calling_frame()"
+
+    no_caller = [n.id for n in br.cfg.nodes if n.kind == "test" and _is_frame_test(br, n)]
     removed = set(br.nodes_all(props)) | set(br.nodes_all(runs))
     def edge_ok(s, d, l):
         return not (s in no_caller and l == "F")
@@ -56,7 +63,7 @@ def check(ck):
     for c in props:
         cm = A.kwarg(c, "caller_memento") or (c.args[0] if c.args else None)
         rm = A.kwarg(c, "result_memento") or (c.args[1] if len(c.args) > 1 else None)
-        okc = cm is not None and A.norm(cm) == "calling_frame.memento" and "call:get_calling_frame" in br.deps(cm)
+        okc = cm is not None and _is_frame_memento(br, cm, br.nodes(c)[0]) and "call:get_calling_frame" in br.deps(cm)
         okr = rm is not None and "attr:existing_mementos" not in set() and ("op:subscript" in br.deps(rm)) and any(
             d.startswith("call:get_mementos") for d in br.deps(rm))
         ck.ob(R1, br.key(c, "args"), okc and okr, "propagates the stored memento into the calling frame's memento" if okc and okr else
@@ -69,7 +76,11 @@ def check(ck):
     push_nodes = rl.nodes_all(pushes)
     pop_nodes = rl.nodes_all(pops)
     prop_nodes = rl.nodes_all(props2)
-    nc = [n.id for n in rl.cfg.nodes if n.kind == "test" and A.norm(n.ast) in ("calling_frame", "calling_frame is not None")]
+    nc = [n.id for n in rl.cfg.nodes if n.kind == "test" and _is_frame_test(rl, n)]
+    sfc = rl.calls("StackFrame")
+    sfs = rl.stmt_of(sfc[0]) if len(sfc) == 1 else None
+    SF = sfs.targets[0].id if isinstance(sfs, ast.Assign) and isinstance(sfs.targets[0], ast.Name) and sfs.value is sfc[0] else None
+    ck.need(SF is not None, "memento_run_local: the invocation's StackFrame is not bound to a local")
     exits = [rl.cfg.exit, rl.cfg.raise_exit]
     bad = None
     for p in push_nodes:
@@ -83,7 +94,7 @@ def check(ck):
     for c in props2:
         cm = A.kwarg(c, "caller_memento") or (c.args[0] if c.args else None)
         rm = A.kwarg(c, "result_memento") or (c.args[1] if len(c.args) > 1 else None)
-        okc = cm is not None and A.norm(cm) == "calling_frame.memento" and A.norm(rm) == "stack_frame.memento"
+        okc = cm is not None and _is_frame_memento(rl, cm, rl.nodes(c)[0]) and A.norm(rm) == SF + ".memento"
         # pop precedes the caller lookup
         okp = all(rl.cfg.must_pass(pop_nodes, i) for i in rl.nodes(c))
         gl = [x for x in rl.calls("get_calling_frame")]
@@ -99,12 +110,12 @@ def check(ck):
                     ck.ob(R1, rl.key(n, "lookup-after-pop"), okq, "the caller is looked up after the own frame was popped" if okq else
                           "the calling frame is looked up before the own frame is popped: the function would propagate into itself", rl.where(n))
     # served path: frame's memento replaced by the stored memento before returning
-    served = [r for r in rl.returns() if r.value is not None and "existing_memento_result" in A.norm(r.value)]
+    served = [r for r in rl.returns() if r.value is not None and "call:process_existing_memento" in rl.deps(r.value)]
     for r in served:
-        asg = [s for s in rl.stmts(ast.Assign) if any(A.dotted(t) == "stack_frame.memento" for t in s.targets)
-               and A.norm(s.value) == "existing_memento"]
+        asg = [s for s in rl.stmts(ast.Assign) if any(A.dotted(t) == SF + ".memento" for t in s.targets)
+               and rl.xnorm(s.value).startswith("storage_backend.get_memento(")]
         oks = bool(asg) and all(rl.cfg.must_pass(rl.nodes_all(asg), i) for i in rl.nodes(r))
-        ck.ob(R1, rl.key(r, "served-memento-replaces"), oks, "the stored memento (with its stored dependency set) is what propagates" if oks else
+        ck.ob(R1, rl.key(None, "served-memento-replaces"), oks, "the stored memento (with its stored dependency set) is what propagates" if oks else
               "a served result propagates the fresh, empty frame memento instead of the stored one: transitive dependencies are lost", rl.where(r))
     ck.need(served, "memento_run_local: no 'served from store' return found")
 
@@ -131,7 +142,7 @@ def check(ck):
            "a pop can execute on a path that never pushed"), rl.where())
     sf = [c for c in rl.calls("StackFrame")]
     oksf = len(sf) == 1 and [A.norm(a) for a in sf[0].args][:1] == ["fn_reference_with_args"] and \
-        all(A.norm(p.args[0]) == "stack_frame" for p in pushes if p.args)
+        all(A.norm(p.args[0]) == SF for p in pushes if p.args)
     ck.ob(R2, rl.key(None, "frame-identity"), oksf, "the pushed frame is the frame of this invocation" if oksf else
           "the pushed frame is not the StackFrame built for this invocation", rl.where())
 
@@ -175,9 +186,10 @@ def check(ck):
     # ---- R5
     rf = FA(ck, "resource_function.ResourceFunction.__call__")
     apps = [c for c in rf.calls("append") if "resources" in A.norm(A.call_recv(c))]
-    tests = [n.id for n in rf.cfg.nodes if n.kind == "test" and A.norm(n.ast) in ("caller_frame", "caller_frame is not None")]
+    FRAME_X = ("CallStack.get().get_calling_frame()", "CallStack.get().get_calling_frame() is not None")
+    tests = [n.id for n in rf.cfg.nodes if n.kind == "test" and rf.xnorm(n.ast, n.id) in FRAME_X]
     rets = [r for r in rf.returns() if r.value is not None]
-    okr = bool(apps) and all(c.args and A.norm(c.args[0]) == A.norm(rets[0].value) for c in apps) if rets else False
+    okr = bool(apps) and all(c.args and rf.xnorm(c.args[0]) == rf.xnorm(rets[0].value) for c in apps) if rets else False
     if okr:
         an = rf.nodes_all(apps)
         live = rf.cfg.reach([rf.cfg.entry], removed=an, edge_ok=lambda s, d, l: not (s in tests and l == "F"))
